@@ -1,3 +1,63 @@
-From Flodym Require Import Base.ND.
-Theorem placeholder : True. Proof. exact I. Qed.
-Print Assumptions placeholder.
+(* C08 — survival tables are valid and equal the declared lifetime distribution.  Statements only.
+   PARTIAL: that scipy.stats.{norm, foldnorm, lognorm, weibull_min}.sf compute the named survival
+   functions is trusted (tested against closed forms by the harness); [S] below stands for them. *)
+From Coq Require Import List Arith Bool QArith Reals.
+Import ListNotations.
+From Flodym Require Import Base.ND Model.Stocks Model.Lifetime Proofs.C08Proofs.
+
+(* the quadrature tables of the CURRENT source (regenerated on every run), all rules n = 2..10:
+   n nodes from -1 to 1, strictly increasing, antisymmetric; positive symmetric weights summing to 2;
+   exact for every polynomial of degree <= 2n-3 (which characterises the n-point Gauss-Lobatto rule) *)
+Theorem C08_gauss_lobatto_tables : forallb rule_ok (seq 2 9) = true.
+Proof. exact gl_tables_ok. Qed.
+Print Assumptions C08_gauss_lobatto_tables.
+
+Theorem C08_quadrature_on_unit_interval : forallb mapped_ok (seq 2 9) = true.
+Proof. exact gl_mapped_ok. Qed.
+Print Assumptions C08_quadrature_on_unit_interval.
+
+Theorem C08_single_point_and_limit :
+  quad_points_Q 1 AtStart = Some [(0, 1)]%Q /\ quad_points_Q 1 AtMiddle = Some [(1 # 2, 1)]%Q
+  /\ quad_points_Q 1 AtEnd = Some [(1, 1)]%Q /\ quad_points_Q 11 AtMiddle = None.
+Proof. exact quad_single_point. Qed.
+Print Assumptions C08_single_point_and_limit.
+
+(* structure of the table for ANY survival function S, any bounds, quadrature, parameters *)
+Theorem C08_zero_for_later_cohorts :
+  forall (P : Type) (S : R -> P -> R) b quad prm (t c : nat), (t < c)%nat ->
+  sf_entry R 0%R 1%R Rplus Rmult Rminus P S b quad prm t c = 0%R.
+Proof. exact sf_upper_zero. Qed.
+Print Assumptions C08_zero_for_later_cohorts.
+
+Theorem C08_entry_is_survival_at_age_to_end_of_year :
+  forall (P : Type) (S : R -> P -> R) b quad prm (t c : nat), (c <= t)%nat ->
+  sf_entry R 0%R 1%R Rplus Rmult Rminus P S b quad prm t c
+  = sum 0%R Rplus (map (fun ew => (snd ew * S (age R 0%R 1%R Rplus Rmult Rminus b t c (fst ew)) (prm c))%R) quad).
+Proof. exact sf_entry_spec. Qed.
+Print Assumptions C08_entry_is_survival_at_age_to_end_of_year.
+
+Theorem C08_in_unit_interval :
+  forall (P : Type) (S : R -> P -> R) b quad prm (t c : nat),
+  (forall a p, (0 <= S a p <= 1)%R) -> Forall (fun ew => (0 <= snd ew)%R) quad ->
+  (0 <= sf_entry R 0%R 1%R Rplus Rmult Rminus P S b quad prm t c <= sum 0%R Rplus (map snd quad))%R.
+Proof. exact sf_range. Qed.
+Print Assumptions C08_in_unit_interval.
+
+Theorem C08_never_increases_with_age :
+  forall (P : Type) (S : R -> P -> R) b quad prm (t c : nat),
+  (forall a a' p, (a <= a')%R -> (S a' p <= S a p)%R) -> Forall (fun ew => (0 <= snd ew)%R) quad ->
+  (c <= t)%nat -> (nthF R 0%R b (Datatypes.S t) <= nthF R 0%R b (Datatypes.S (Datatypes.S t)))%R ->
+  (sf_entry R 0%R 1%R Rplus Rmult Rminus P S b quad prm (Datatypes.S t) c
+   <= sf_entry R 0%R 1%R Rplus Rmult Rminus P S b quad prm t c)%R.
+Proof. exact sf_antitone. Qed.
+Print Assumptions C08_never_increases_with_age.
+
+(* survival + cumulated outflow probabilities = 1 : see C09_cohort_conserved / pdf_telescopes *)
+
+(* log-normal: the parameters handed to scipy are those of the distribution with the GIVEN mean and std *)
+Theorem C08_lognormal_given_by_its_own_mean_and_std :
+  forall m s : R, (0 < m)%R -> (0 < s)%R ->
+  let mu := ln (m*m / sqrt (m*m + s*s)) in let sg := sqrt (ln (1 + s*s/(m*m))) in
+  (exp (mu + sg*sg/2) = m /\ (exp (sg*sg) - 1) * exp (2*mu + sg*sg) = s*s)%R.
+Proof. exact lognormal_moments. Qed.
+Print Assumptions C08_lognormal_given_by_its_own_mean_and_std.
